@@ -10,6 +10,7 @@ LEVEL_TEXT = {
     "C04": "Exact lost-wake-up detector: the simulation ends either with every task finished or at global quiescence; since the generated conversations are deadlock-free by construction, an unfinished task at quiescence means a descriptor failed to become readable when it had to. Seeded search over schedules, buffer sizes, segmentation and connection phases.",
     "C05": "Monitor on the simulated kernel over every run: any call that may sleep made inside an API call on a non-blocking socket is a violation regardless of whether it would have been satisfied at once.",
     "C07": "Seeded search over hostile byte strings and their fragmentation against a real single-threaded XCM application; a reference frame decoder decides what must be delivered and how the connection must end, sanitizers and the abort trap decide memory safety, the allocation wraps decide the buffering bound, and healthy neighbour connections of the same thread must be unaffected.",
+    "C08": "Fault enumeration: every resource-creating system call of every sampled lifecycle program is made to fail with each plausible errno in a run of its own, a real fork()+xcm_cleanup is placed at every operation boundary, pairs of failures are sampled; conservation of descriptors, heap, OpenSSL objects and files, the foreign-descriptor monitor and the abort trap decide. Complete for single faults within each sampled program (up to the stated cap).",
     "C16": "Readiness read directly from the simulated epoll object; spin compression turns a permanently readable descriptor without progress into an exact verdict; xcm_fd stability sampled around every API call.",
     "C17": "Ledger comparison after every API call over generated traffic histories incl. truncation, refusal, partial flush.",
 }
@@ -18,7 +19,6 @@ TECHNIQUE = {}
 NOT_APPLICABLE = {
     "C12": "pure codec (xcm_addr_make_*/parse_*): a function of its arguments with no schedule, clock, fault or second party - nothing for a simulator to control (DESIGN.md 3, C12)",
     "C19": "sequential ADT (xcm_attr_map) and pure parser (attr_path): no schedule, clock, fault or interleaving; reference-model equivalence over operation histories is input generation, not simulation (DESIGN.md 3, C19)",
-    "C08": "check not built yet at this commit (planned: lifecycle programs with resource-call fault enumeration, DESIGN.md 3 C08)",
     "C09": "check not built yet at this commit (planned: generated PKI x policy matrix, DESIGN.md 3 C09)",
     "C10": "check not built yet at this commit (planned: attribute probes at scheduler-chosen points, DESIGN.md 3 C10)",
     "C11": "check not built yet at this commit (planned: attribute sets at every life point, DESIGN.md 3 C11)",
